@@ -110,11 +110,11 @@ func genAnyMessage(r *rand.Rand, typ int) raftpb.Message {
 	}
 	if r.Intn(2) == 0 {
 		for n := r.Intn(5); n > 0; n-- {
-			m.Entries = append(m.Entries, genEntry(r, 600))
+			m.Entries = append(m.Entries, genEntry(r, 160))
 		}
 	}
 	if r.Intn(3) == 0 || m.Type == raftpb.MsgSnap {
-		m.Snapshot = raftpb.Snapshot{Data: optBytes(r, 300)}
+		m.Snapshot = raftpb.Snapshot{Data: optBytes(r, 120)}
 		m.Snapshot.Metadata = raftpb.SnapshotMetadata{Index: u64(r), Term: u64(r), ConfState: genConfState(r)}
 	}
 	if r.Intn(3) == 0 {
@@ -122,7 +122,7 @@ func genAnyMessage(r *rand.Rand, typ int) raftpb.Message {
 		m.RejectHint = u64(r)
 	}
 	if r.Intn(3) == 0 {
-		m.Context = optBytes(r, 200)
+		m.Context = optBytes(r, 60)
 	}
 	return m
 }
@@ -278,32 +278,58 @@ func (g *v2Group) app(r *rand.Rand, nEnt int, dataLen func() int) raftpb.Message
 // reject, or a jump), empty appends and link heartbeats.
 func genV2Sequence(r *rand.Rand, n int, bigEvery int) (*v2World, []raftpb.Message) {
 	w := newV2World(r)
+	// Aligned worlds: the groups two nodes share often sit at the same term and
+	// at the same (or neighbouring) log index - fresh partitions of one
+	// namespace, idle groups exchanging empty appends. Then the continuation
+	// test of the compact encoding is decided by the group identity alone.
+	aligned := r.Intn(2) == 0
+	if aligned {
+		for _, g := range w.groups {
+			g.term, g.lastTerm, g.next = w.groups[0].term, w.groups[0].term, w.groups[0].next
+			g.commit = g.next - 1
+		}
+	}
 	var out []raftpb.Message
 	cur := w.groups[r.Intn(len(w.groups))]
+	var encIndex, encTerm uint64 // what the previous append left behind: last index and term
 	for len(out) < n {
 		x := r.Intn(100)
 		switch {
 		case x < 8:
 			out = append(out, rafthttp.VerifLinkHeartbeatMessage())
 			continue
-		case x < 30: // switch group (interleaving)
+		case x < 34: // switch group (interleaving)
 			cur = w.groups[r.Intn(len(w.groups))]
-		case x < 36: // new term: the leader was re-elected; its first append still refers to an older last term
-			cur.term += 1 + uint64(r.Intn(3))
-		case x < 42: // the leader's log caught up with its term: steady state from now on
+			if aligned && encTerm >= cur.term && r.Intn(10) < 6 {
+				// this group happens to be exactly where the previous message of the other group ended
+				cur.term, cur.lastTerm, cur.next = encTerm, encTerm, encIndex+1
+				if cur.commit > encIndex {
+					cur.commit = encIndex
+				}
+			}
+		case x < 39: // new term: the leader was re-elected; its first append still refers to an older last term
+			d := 1 + uint64(r.Intn(3))
+			if aligned {
+				for _, g := range w.groups {
+					g.term += d
+				}
+			} else {
+				cur.term += d
+			}
+		case x < 45: // the leader's log caught up with its term: steady state from now on
 			cur.lastTerm = cur.term
-		case x < 48: // follower rejected: go back
+		case x < 50: // follower rejected: go back
 			if cur.next > 1 {
 				cur.next = 1 + uint64(r.Intn(int(cur.next)))
 				cur.lastTerm = 1 + uint64(r.Intn(int(cur.term)))
 			}
-		case x < 52: // jump forward (after a snapshot was sent through the pipeline)
+		case x < 53: // jump forward (after a snapshot was sent through the pipeline)
 			cur.next += 1 + uint64(r.Intn(1000))
 			cur.commit = cur.next - 1
 		}
 		nEnt := 0
 		switch y := r.Intn(10); {
-		case y < 2:
+		case y < 3:
 			nEnt = 0
 		case y < 7:
 			nEnt = 1
@@ -318,10 +344,10 @@ func genV2Sequence(r *rand.Rand, n int, bigEvery int) (*v2World, []raftpb.Messag
 				return 0
 			case z == 2:
 				return 1
-			case z < 16:
-				return 2 + r.Intn(120)
+			case z < 18:
+				return 2 + r.Intn(60)
 			}
-			return 200 + r.Intn(3000)
+			return 200 + r.Intn(1500)
 		}
 		m := cur.app(r, nEnt, dl)
 		if bigEvery > 0 && len(out)%bigEvery == bigEvery-1 && len(m.Entries) > 0 {
@@ -329,6 +355,7 @@ func genV2Sequence(r *rand.Rand, n int, bigEvery int) (*v2World, []raftpb.Messag
 			tgt := bufLimit - 1 + r.Intn(3)
 			padEntryTo(&m.Entries[r.Intn(len(m.Entries))], tgt)
 		}
+		encIndex, encTerm = m.Index+uint64(len(m.Entries)), m.Term
 		out = append(out, m)
 	}
 	return w, out
